@@ -92,8 +92,13 @@ ObsRet ==
             \* after a clear samples are loaded again: a value can only come from a load of this clear-segment,
             \* unless a clear happened while this access was in flight
             \cup (IF oLoads[e.i] >= 1 \/ a.clearSeen THEN {} ELSE {"ReloadAfterClear"}))
+\* an index outside the wrapped dataset: observational equality includes the refusal (same exception type)
+ObsOob ==
+  /\ IsEv("oob")
+  /\ UNCHANGED <<oLoads, oAcc, oClr>>
+  /\ ObsStep(IF Ev(l).same THEN {} ELSE {"Transparent"})
 ObsExc == IsEv("exc") /\ UNCHANGED <<oLoads, oAcc, oClr>> /\ ObsStep({"NoError"})
-ObsNext == ObsBegin \/ ObsLoad \/ ObsClear \/ ObsOther \/ ObsBeginClear \/ ObsPlain \/ ObsRet \/ ObsExc
+ObsNext == ObsBegin \/ ObsLoad \/ ObsClear \/ ObsOther \/ ObsBeginClear \/ ObsPlain \/ ObsOob \/ ObsRet \/ ObsExc
 ObsSpec == TInit /\ [][ObsNext]_tvars
 
 ObsCollect ==
@@ -121,7 +126,7 @@ DescNext ==
   \/ IsOp("clear") /\ Clear(Ev(l).p) /\ KeysAgree /\ Consume
   \/ IsEv("ret") /\ Return(Ev(l).p) /\ Consume
          /\ Ev(l).i = req[Ev(l).p] /\ (Ev(l).val = Want /\ Ev(l).vi = Ev(l).i) = (ret'[Ev(l).p] = T(Base(Ev(l).i)))
-  \/ (IsEv("begincopy") \/ IsEv("plain")) /\ UNCHANGED vars /\ Consume
+  \/ (IsEv("begincopy") \/ IsEv("plain") \/ IsEv("oob")) /\ UNCHANGED vars /\ Consume
   \/ IsEv("exc") /\ pc[Ev(l).p] = "idle" /\ err /\ UNCHANGED vars /\ Consume
 DescSpec == TInit /\ [][DescNext]_tvars
 DescCollect ==
